@@ -46,6 +46,20 @@ Proof.
     + apply Hcl.
 Qed.
 
+Lemma iter_swap {A} (g : A -> A) k a : Nat.iter k g (g a) = g (Nat.iter k g a).
+Proof. induction k as [|k IH]; [reflexivity | cbn [Nat.iter nat_rect]; unfold Nat.iter in *; cbn; rewrite IH; reflexivity]. Qed.
+
+(* a class listed k times receives the effect k times *)
+Lemma map_classes_iter ids g : forall cl id,
+  map_classes ids g cl id = Nat.iter (count_occ Nat.eq_dec ids id) g (cl id).
+Proof.
+  unfold map_classes. induction ids as [|x ids IH]; intros cl id; cbn [fold_left count_occ].
+  - reflexivity.
+  - rewrite IH. unfold upd. destruct (Nat.eq_dec x id) as [->|Hne].
+    + rewrite Nat.eqb_refl. cbn [Nat.iter]. apply iter_swap.
+    + destruct (Nat.eqb id x) eqn:E; [apply Nat.eqb_eq in E; congruence | reflexivity].
+Qed.
+
 (* ------------------------------------------------------------------ the invariant *)
 Section Inv.
   Variable F : facts.
@@ -60,7 +74,7 @@ Section Inv.
 
   (* a configuration uses a user class only with the grammar the class is written for *)
   Definition wf_cfg (c : cfg) : Prop := forall id, In id (c_classes c) -> cls_gram id = c_gram c.
-  Definition wf_op (o : op) : Prop := match o with New _ c => wf_cfg c | Load _ _ => True end.
+  Definition wf_op (o : op) : Prop := match o with New _ c => wf_cfg c | _ => True end.
 
   Record inv (st : pst) : Prop := {
     i_gp_cache : forall a b gp, gparsers st a b = Some gp -> gp_cache gp = [];
@@ -192,9 +206,177 @@ Section Inv.
       intros id u _. rewrite class_effect_gram. auto.
   Qed.
 
+
+  (* ---------------------------------------------------------------- loads started from inside a load *)
+  (* the invariant without the clause on the instrumentation counters (which are 1 for the classes of a load in progress) *)
+  Record inv0 (st : pst) : Prop := {
+    j_gp_cache : forall a b gp, gparsers st a b = Some gp -> gp_cache gp = [];
+    j_gp_key : forall a b gp, gparsers st a b = Some gp -> f_gp_key_memo F = true -> gp_memo gp = b;
+    j_base : base_cache st = [];
+    j_slot : forall s m, slots st s = Some m ->
+               m_bp_dirty m = false /\ m_cache m = [] /\ m_stale m = false /\ wf_cfg (m_cfg m) /\
+               (forall id, In id (c_classes (m_cfg m)) -> u_gram (classes st id) = Some (cls_gram id)) /\
+               (exists b, k_kind (create_out (m_cfg m) {| gv_memo := b; gv_cache := [] |}) = COk /\
+                          (f_gp_key_memo F = true -> b = c_memo (m_cfg m)));
+    j_gram : forall id, u_gram (classes st id) = None \/ u_gram (classes st id) = Some (cls_gram id)
+  }.
+
+  Lemma inv_to0 st : inv st -> inv0 st.
+  Proof. intros [A B C D E G]. constructor; assumption. Qed.
+
+  Lemma inv_of0 st : inv0 st -> (forall id, u_instr (classes st id) = 0) -> inv st.
+  Proof. intros [A B C D G] E. constructor; assumption. Qed.
+
+  Lemma class_effect_id r u : class_effect F r u = u.
+  Proof.
+    destruct good_parts as (_ & _ & _ & He & Hn & Hp & Him & Hgd).
+    unfold class_effect. rewrite He, Hn, Hp, Him, Hgd. unfold when. cbn [negb].
+    destruct u as [n st0 ow g]. destruct (l_kind r); reflexivity.
+  Qed.
+
+  Lemma finish_effect_instr r u : u_instr (finish_effect F r u) = Nat.pred (u_instr u).
+  Proof.
+    destruct good_parts as (_ & _ & _ & He & Hn & Hp & Him & Hgd).
+    unfold finish_effect. rewrite He, Hn, Hp, Him, Hgd. unfold when. cbn [negb].
+    destruct (l_kind r); reflexivity.
+  Qed.
+
+  Lemma finish_effect_gram r u : u_gram (finish_effect F r u) = u_gram u.
+  Proof.
+    unfold finish_effect, when.
+    destruct (f_except_restores F), (f_end_restores F), (f_restore_on_primitive F), (f_restore_on_immutable F), (f_restore_guarded F), (l_kind r); reflexivity.
+  Qed.
+
+  Lemma step_load_classes_instr st s i id :
+    u_instr (classes (fst (step st (Load s i))) id) = u_instr (classes st id).
+  Proof.
+    cbn [History.step]. unfold step_load. destruct (slots st s) as [m|]; [|reflexivity]. cbn [fst classes].
+    apply (leak_classes_pres (fun id u => u_instr u = u_instr (classes st id))); auto.
+    apply (map_classes_pres (fun id u => u_instr u = u_instr (classes st id))); auto.
+    intros id' u _ H. rewrite class_effect_id. exact H.
+  Qed.
+
+  Lemma step_load_inv0 st s i : inv0 st -> inv0 (fst (step st (Load s i))).
+  Proof.
+    intros I. pose proof I as I0. destruct I as [Igc Igk Ib Is Ig].
+    cbn [History.step]. unfold step_load. destruct (slots st s) as [m|] eqn:Em; [|exact I0].
+    destruct good_parts as (Hc & Hl & Hr & _ & _ & _ & _ & Hgd).
+    set (c := m_cfg m). set (r := load_out c i (view_of st m)).
+    destruct (Is s m Em) as (Hd & Hmc & Hst & Hwf & Hgr & Hok).
+    assert (Hkeep : forall id, u_gram (classes st id) = Some (cls_gram id) ->
+              u_gram (leak_classes (c_classes c) (l_leak r) (map_classes (c_classes c) (class_effect F r) (classes st)) id) = Some (cls_gram id)).
+    { intro id.
+      apply (leak_classes_pres (fun id u => u_gram (classes st id) = Some (cls_gram id) -> u_gram u = Some (cls_gram id))); auto.
+      apply (map_classes_pres (fun id u => u_gram (classes st id) = Some (cls_gram id) -> u_gram u = Some (cls_gram id))); auto.
+      intros id' u _ H1 H2. rewrite class_effect_gram. auto. }
+    constructor; cbn [fst gparsers base_cache slots classes].
+    - exact Igc.
+    - exact Igk.
+    - rewrite Ib. destruct (c_base c); [apply after_parse_nil | reflexivity].
+    - intros s0 m0. unfold upd. destruct (Nat.eqb s0 s).
+      + intro E. inversion E; subst m0. cbn. rewrite Hd, Hl, Hr, Hmc, Hst, Hgd. cbn. repeat split; auto.
+        * apply after_parse_nil.
+        * rewrite andb_false_r. reflexivity.
+      + intro E. destruct (Is s0 m0 E) as (H1 & H2 & H2s & H3 & H4 & H5). repeat split; auto.
+    - apply (leak_classes_pres (fun id u => u_gram u = None \/ u_gram u = Some (cls_gram id))); auto.
+      apply (map_classes_pres (fun id u => u_gram u = None \/ u_gram u = Some (cls_gram id))); auto.
+      intros id u _. rewrite class_effect_gram. auto.
+  Qed.
+
+  Lemma replace_gram ids cl id : u_gram (map_classes ids replace_u cl id) = u_gram (cl id).
+  Proof. apply (map_classes_pres (fun id u => u_gram u = u_gram (cl id))); auto. Qed.
+
+  Lemma begin_inv0 st s m i : inv0 st -> slots st s = Some m -> inv0 (begin_load F st s m i).
+  Proof.
+    intros [Igc Igk Ib Is Ig] Em.
+    destruct good_parts as (Hc & Hl & Hr & _).
+    destruct (Is s m Em) as (Hd & Hmc & Hst & Hwf & Hgr & Hok).
+    constructor; unfold begin_load; cbn [gparsers base_cache slots classes].
+    - exact Igc.
+    - exact Igk.
+    - rewrite Ib. destruct (c_base (m_cfg m)); [apply after_parse_nil | reflexivity].
+    - intros s0 m0. unfold upd. destruct (Nat.eqb s0 s).
+      + intro E. inversion E; subst m0. cbn. rewrite Hd, Hl, Hr, Hmc. cbn. repeat split; auto.
+        * apply after_parse_nil.
+        * intros id Hin. rewrite replace_gram. apply Hgr. exact Hin.
+      + intro E. destruct (Is s0 m0 E) as (H1 & H2 & H2s & H3 & H4 & H5). repeat split; auto.
+        intros id Hin. rewrite replace_gram. apply H4. exact Hin.
+    - intro id. rewrite replace_gram. apply Ig.
+  Qed.
+
+  Lemma finish_gram c r cl id :
+    u_gram (leak_classes (c_classes c) (l_leak r) (map_classes (c_classes c) (finish_effect F r) cl) id) = u_gram (cl id).
+  Proof.
+    apply (leak_classes_pres (fun id u => u_gram u = u_gram (cl id))); auto.
+    apply (map_classes_pres (fun id u => u_gram u = u_gram (cl id))); auto.
+    intros id' u _ H. rewrite finish_effect_gram. exact H.
+  Qed.
+
+  Lemma finish_inv0 st s c r : inv0 st -> inv0 (finish_load F st s c r).
+  Proof.
+    intros [Igc Igk Ib Is Ig].
+    constructor; unfold finish_load; cbn [gparsers base_cache slots classes].
+    - exact Igc.
+    - exact Igk.
+    - exact Ib.
+    - intros s0 m0. destruct (slots st s) as [m|] eqn:Em.
+      + unfold upd. destruct (Nat.eqb s0 s).
+        * intro E. inversion E; subst m0. cbn.
+          destruct (Is s m Em) as (H1 & H2 & H2s & H3 & H4 & H5). repeat split; auto.
+          intros id Hin. rewrite finish_gram. apply H4. exact Hin.
+        * intro E. destruct (Is s0 m0 E) as (H1 & H2 & H2s & H3 & H4 & H5). repeat split; auto.
+          intros id Hin. rewrite finish_gram. apply H4. exact Hin.
+      + intro E. destruct (Is s0 m0 E) as (H1 & H2 & H2s & H3 & H4 & H5). repeat split; auto.
+        intros id Hin. rewrite finish_gram. apply H4. exact Hin.
+    - intro id. rewrite finish_gram. apply Ig.
+  Qed.
+
+  Lemma iter_replace_instr k u : u_instr (Nat.iter k replace_u u) = k + u_instr u.
+  Proof.
+    induction k as [|k IH]; [reflexivity|].
+    change (Nat.iter (S k) replace_u u) with (replace_u (Nat.iter k replace_u u)). cbn [u_instr replace_u]. rewrite IH. reflexivity.
+  Qed.
+
+  Lemma iter_finish_instr r k u : u_instr (Nat.iter k (finish_effect F r) u) = u_instr u - k.
+  Proof.
+    induction k as [|k IH]; [cbn; lia|].
+    change (Nat.iter (S k) (finish_effect F r) u) with (finish_effect F r (Nat.iter k (finish_effect F r) u)).
+    rewrite finish_effect_instr, IH. lia.
+  Qed.
+
+  (* the counters a load started by a provider of the load (s, m) sees: one per occurrence in the outer class list *)
+  Definition held (m : mm) (id : nat) : nat := count_occ Nat.eq_dec (c_classes (m_cfg m)) id.
+
+  Lemma begin_instr st s m i id : (forall id, u_instr (classes st id) = 0) ->
+    u_instr (classes (begin_load F st s m i) id) = held m id.
+  Proof.
+    intro H0. unfold begin_load, held. cbn [classes]. rewrite map_classes_iter, iter_replace_instr, H0. lia.
+  Qed.
+
+  Lemma step_nested_inv st s i ph s' i' : inv st -> inv (fst (step st (Nested s i ph s' i'))).
+  Proof.
+    intro I. cbn [History.step]. unfold step_nested. destruct (slots st s) as [m|] eqn:Em; [|exact I].
+    destruct ph.
+    - (* provider phase *)
+      destruct (step_load F load_out (begin_load F st s m i) s' i') as [st2 o2] eqn:E2. cbn [fst].
+      assert (E2' : st2 = fst (step (begin_load F st s m i) (Load s' i'))) by (cbn [History.step]; rewrite E2; reflexivity).
+      assert (I2 : inv0 st2).
+      { rewrite E2'. apply step_load_inv0. apply begin_inv0; [apply inv_to0; exact I | exact Em]. }
+      apply inv_of0; [apply finish_inv0; exact I2|].
+      intro id. unfold finish_load. cbn [classes].
+      apply (leak_classes_pres (fun _ u => u_instr u = 0)); auto.
+      intro id0. rewrite map_classes_iter, iter_finish_instr.
+      rewrite E2', step_load_classes_instr, (begin_instr st s m i id0 (i_instr st I)). unfold held. lia.
+    - (* after the outer load has restored: two loads in a row *)
+      destruct (step_load F load_out (fst (step_load F load_out st s i)) s' i') as [st2 o2] eqn:E2. cbn [fst].
+      assert (E2' : st2 = fst (step (fst (step st (Load s i))) (Load s' i'))) by (cbn [History.step]; rewrite E2; reflexivity).
+      rewrite E2'. apply step_load_inv. apply step_load_inv. exact I.
+  Qed.
+
   Lemma step_inv st o : wf_op o -> inv st -> inv (fst (step st o)).
   Proof.
-    destruct o as [s c|s i]; intros Hwf I; [apply step_new_inv; assumption | apply step_load_inv; assumption].
+    destruct o as [s c|s i|s i ph s' i']; intros Hwf I;
+      [apply step_new_inv; assumption | apply step_load_inv; assumption | apply step_nested_inv; assumption].
   Qed.
 
   Lemma run_fst st ops : forall o, fst (run st (o :: ops)) = fst (run (fst (step st o)) ops).
@@ -229,6 +411,48 @@ Section Inv.
   Proof.
     intros I Em. unfold result, History.result. cbn [History.step]. unfold step_load. rewrite Em. cbn [snd].
     rewrite (view_canonical st s m I Em). reflexivity.
+  Qed.
+
+  (* ---------------------------------------------------------------- the load started by a provider *)
+  Definition set_instr (v : view) (l : list nat) : view :=
+    {| v_memo := v_memo v; v_bp_dirty := v_bp_dirty v; v_caches := v_caches v; v_instr := l; v_cgram := v_cgram v;
+       v_repo := v_repo v; v_stale := v_stale v |}.
+  (* attribute access on objects that are not under construction does not depend on whether their class is
+     instrumented (what the delegation to the class's own methods achieves) *)
+  Definition instr_blind : Prop := forall c i v l, load_out c i (set_instr v l) = load_out c i v.
+
+  Lemma nested_provider_view st s m i s' m' : inv st -> slots st s = Some m ->
+    slots (begin_load F st s m i) s' = Some m' ->
+    view_of (begin_load F st s m i) m'
+    = set_instr (fresh_view (m_cfg m') (if c_repo (m_cfg m') then m_repo m' else [])) (map (held m) (c_classes (m_cfg m'))).
+  Proof.
+    intros I Em Em'. pose proof (begin_inv0 st s m i (inv_to0 st I) Em) as [_ _ Jb Js _].
+    destruct (Js s' m' Em') as (Hd & Hmc & Hst & Hwf & Hgr & _).
+    unfold view_of, fresh_view, set_instr. cbn [v_memo v_bp_dirty v_caches v_instr v_cgram v_repo v_stale].
+    rewrite Hd, Hmc, Hst, Jb. f_equal.
+    - destruct (c_base (m_cfg m')); reflexivity.
+    - apply map_ext. intro id. apply begin_instr. apply (i_instr st I).
+    - apply map_ext_in. intros id Hin. rewrite (Hgr id Hin), (Hwf id Hin). reflexivity.
+  Qed.
+
+  (* the inner load answers exactly what the same load answers at top level in the state the outer load started from *)
+  Theorem nested_provider_inner st s m i s' m' i' : inv st -> instr_blind ->
+    slots st s = Some m -> slots st s' = Some m' ->
+    snd (step st (Nested s i PhProvider s' i'))
+    = ONest (load_out (m_cfg m) i (fresh_view (m_cfg m) (if c_repo (m_cfg m) then m_repo m else []))) (result st (Load s' i')).
+  Proof.
+    intros I Hb Em Em'. cbn [History.step]. unfold step_nested. rewrite Em.
+    rewrite (view_canonical st s m I Em).
+    destruct (step_load F load_out (begin_load F st s m i) s' i') as [st2 o2] eqn:E2. cbn [snd]. f_equal.
+    rewrite (load_result st s' m' i' I Em').
+    unfold step_load in E2.
+    destruct (slots (begin_load F st s m i) s') as [mb|] eqn:Eb.
+    - inversion E2 as [[E2a E2b]]. f_equal.
+      rewrite (nested_provider_view st s m i s' mb I Em Eb), Hb.
+      unfold begin_load in Eb. cbn [slots] in Eb. unfold upd in Eb. destruct (Nat.eqb s' s) eqn:Es.
+      + apply Nat.eqb_eq in Es. subst s'. rewrite Em in Em'. inversion Em'; subst m'. inversion Eb; subst mb. reflexivity.
+      + rewrite Em' in Eb. inversion Eb; subst mb. reflexivity.
+    - exfalso. unfold begin_load in Eb. cbn [slots] in Eb. unfold upd in Eb. destruct (Nat.eqb s' s); [discriminate | congruence].
   Qed.
 
   Lemma create_result st s c : inv st ->
@@ -420,3 +644,18 @@ Proof.
   intro E. inversion E as [E1]. apply Hne. revert E1.
   destruct (c_memo c); cbn; intro E1; exact E1.
 Qed.
+
+(* a load started from a scope provider runs while the outer load holds the instrumentation: if attribute access on
+   finished objects depended on it (as before the fix: a user __setattr__ was bypassed) the inner load would differ
+   from the same load at top level *)
+Lemma nested_provider_refuted :
+  let st := final good_facts wit_create wit_load [New 0 wit_cfg] in
+  snd (step good_facts wit_create wit_load st (Nested 0 1 PhProvider 0 1))
+  <> ONest (wit_load wit_cfg 1 (fresh_view wit_cfg [])) (result good_facts wit_create wit_load st (Load 0 1)).
+Proof. vm_compute. discriminate. Qed.
+
+Lemma nested_after_ok :
+  let st := final good_facts wit_create wit_load [New 0 wit_cfg] in
+  snd (step good_facts wit_create wit_load st (Nested 0 1 PhAfter 0 1))
+  = ONest (wit_load wit_cfg 1 (fresh_view wit_cfg [])) (result good_facts wit_create wit_load st (Load 0 1)).
+Proof. vm_compute. reflexivity. Qed.
